@@ -24,6 +24,7 @@ use serde::Serialize;
 use super::bitrepr::BitRepr;
 use super::verify::verify_block_size;
 use super::verify::verify_bps;
+use super::verify::verify_stream_bps;
 use super::verify::verify_sample_range;
 use crate::arrayutils::find_max;
 use crate::arrayutils::wrapping_sum;
@@ -481,7 +482,7 @@ impl StreamInfo {
         // truncation are rejected here (the same ranges as in `verify`).
         verify_range!("sample_rate", sample_rate, ..=96_000)?;
         verify_range!("channels", channels, 1..=8)?;
-        verify_bps!("bits_per_sample", bits_per_sample)?;
+        verify_stream_bps!("bits_per_sample", bits_per_sample)?;
         let ret = Self {
             min_block_size: u16::MAX,
             max_block_size: 0,
